@@ -349,8 +349,33 @@ func (m *Machine) cutCall(fn *ssa.Function, args []Value) (Value, bool) {
 		}
 		out = t
 	}
+	failing := m.job.Params["cutFails"] == name || (m.job.Params["cutMayFail"] != "" && strings.Contains(","+m.job.Params["cutMayFail"]+",", ","+name+",") && m.choose(2, nil) == 1)
+	// the cut download returns a list of symbolic temp-file names
+	if name == "(*AtlasClient).DownloadClusterLogs" && m.job.Params["cut.files"] != "" && !failing {
+		n := 2
+		fmt.Sscanf(m.job.Params["cut.files"], "%d", &n)
+		var fs []Str
+		for i := 0; i < n; i++ {
+			v := mkStrT(TVar(fmt.Sprintf("tmpfile%d", i), SStr))
+			m.recordInput(fmt.Sprintf("tmpfile%d", i), v)
+			fs = append(fs, v)
+			m.events = append(m.events, Event{Kind: "createtemp", Args: []Value{v}})
+		}
+		if t, ok := out.(Tuple); ok {
+			t[0] = mkStrSlice(fs)
+		}
+	}
+	if name == "(*AtlasClient).DeleteClusterLogs" && len(args) >= 3 {
+		// the real helper removes every listed file: recorded as remove events
+		if sl, ok := args[2].(Slice); ok {
+			for i := 0; i < sl.len; i++ {
+				m.events = append(m.events, Event{Kind: "remove", Args: []Value{*sl.At(i)}})
+			}
+		}
+	}
 	// a cut call may be told to fail (its error result becomes non-nil)
-	if m.job.Params["cutFails"] == name {
+	if failing {
+		m.envFail("call:" + name)
 		if res.Len() >= 1 {
 			errV := m.newError(mkStr("injected failure of " + name))
 			if t, ok := out.(Tuple); ok {
